@@ -53,7 +53,8 @@ REQUIRED_PROBES = {
               "require_inside_module", "modulespec_string_literal",
               "modulespec_from_string_variable", "cycle_reported",
               "shadowed_module_resolved", "torn_read", "names_checked",
-              "shared_state_two_aliases", "nested_load_completed"],
+              "shared_state_two_aliases", "nested_load_completed",
+              "scratch_env"],
 }
 REQUIRED_PROBES["thorough"] = REQUIRED_PROBES["quick"]
 
@@ -280,10 +281,19 @@ def gen_case(rng, tier, k):
     case["ops"].append({"kind": "cmd", "inst": "A", "env": None,
                         "stmts": [["def", "imp_only", 77]], "faults": []})
     model_run(gm["A"], case["ops"][0]["stmts"], gm["A"].session, [], [])
+    envs = {}
     for opi in range(nops):
         inst = rng.choice(insts)["name"]
         m = gm[inst]
         scope = m.session
+        env = None
+        if rng.random() < 0.2:
+            # the importer is a caller-supplied environment
+            env = rng.choice(["E1", "E2"])
+            key = inst + ":" + env
+            if key not in envs:
+                envs[key] = lang.Scope(m.session, "scratch")
+            scope = envs[key]
         r = rng.random()
         faults = []
         if r < 0.42:
@@ -337,7 +347,7 @@ def gen_case(rng, tier, k):
                 stmts = [["expr", ["v", "imp_only"]]]
         else:
             stmts = [["def", "i_" + rng.choice("abc"), rng.randrange(9)]]
-        op = {"kind": "cmd", "inst": inst, "env": None, "stmts": stmts,
+        op = {"kind": "cmd", "inst": inst, "env": env, "stmts": stmts,
               "faults": faults}
         case["ops"].append(op)
         try:
